@@ -450,6 +450,8 @@ class Kernel:
                 return
             except BaseException as e:  # noqa
                 t.error = e
+                if type(e).__name__ == "SimUnsupported":
+                    self._end("unsupported", {"exc": repr(e)})
                 self.task_errors.append((t.name, repr(e), traceback.format_exc()))
             finally:
                 sys.settrace(None)
@@ -486,6 +488,8 @@ class Kernel:
         except BaseException as e:  # noqa
             sys.settrace(None)
             t.error = e
+            if type(e).__name__ == "SimUnsupported":
+                self._end("unsupported", {"exc": repr(e)})
             self._end("crash", {"exc": repr(e), "exc_type": type(e).__name__,
                                 "traceback": traceback.format_exc()})
         sys.settrace(None)
